@@ -374,16 +374,77 @@ def v2(e: Engine, rep: Report):
         defs = [a for a in walk_own(fn) if isinstance(a, ast.Assign) and any(
             isinstance(x, ast.Name) and x.id == nm
             for t in a.targets for x in ast.walk(t))]
-        return bool(defs) and all(
-            isinstance(a.value, ast.Call) and
-            ast.unparse(a.value.func).endswith('unpack') and a.value.args and
-            isinstance(a.value.args[0], ast.Constant) for a in defs)
+        f = n.frame.ctx.func
+
+        def is_struct(x):
+            return isinstance(x, ast.Call) and \
+                ast.unparse(x.func).endswith('Struct') and x.args and \
+                isinstance(x.args[0], ast.Constant)
+
+        def compiled(x, depth=0):
+            """x denotes a struct.Struct compiled from a literal format: a
+            class-level layout, or one picked from a class-level table of
+            such layouts"""
+            if depth > 3:
+                return False
+            if isinstance(x, ast.Attribute) and \
+                    isinstance(x.value, ast.Name) and f.cls is not None:
+                _, v = e.p.lookup_class_attr(f.cls.qname, x.attr)
+                if v is None:
+                    return False
+                return is_struct(v) or (
+                    isinstance(v, ast.Dict) and v.values and
+                    all(is_struct(y) for y in v.values))
+            if isinstance(x, ast.Call) and \
+                    isinstance(x.func, ast.Attribute) and \
+                    x.func.attr == 'get':
+                return compiled(x.func.value, depth + 1)
+            if isinstance(x, ast.Subscript):
+                return compiled(x.value, depth + 1)
+            if isinstance(x, ast.Name):
+                ds = [a.value for a in walk_own(fn)
+                      if isinstance(a, ast.Assign) and any(
+                          isinstance(t, ast.Name) and t.id == x.id
+                          for t in a.targets)]
+                return bool(ds) and all(compiled(d, depth + 1) for d in ds)
+            return False
+
+        def by_format(v):
+            if not (isinstance(v, ast.Call) and
+                    isinstance(v.func, ast.Attribute) and
+                    v.func.attr == 'unpack'):
+                return False
+            if v.args and isinstance(v.args[0], ast.Constant) and \
+                    isinstance(v.args[0].value, (str, bytes)):
+                return True          # struct.unpack('<fmt>', ...)
+            return compiled(v.func.value)
+        return bool(defs) and all(by_format(a.value) for a in defs)
+
+    def _from_pton(n: Node) -> bool:
+        """the packed address is what inet_pton produced for the same
+        address family: it has that family's length"""
+        if len(n.ast.args) < 2 or not isinstance(n.ast.args[1], ast.Name):
+            return False
+        nm = n.ast.args[1].id
+        fam = ast.unparse(n.ast.args[0])
+        fn = n.frame.ctx.func.node
+        defs = [a for a in walk_own(fn) if isinstance(a, ast.Assign) and any(
+            isinstance(x, ast.Name) and x.id == nm
+            for t in a.targets for x in ast.walk(t))]
+        fam_stores = [x for x in walk_own(fn) if isinstance(x, ast.Name) and
+                      x.id == fam and isinstance(x.ctx, ast.Store)]
+        return bool(defs) and not fam_stores and all(
+            isinstance(a.value, ast.Call) and len(a.targets) == 1 and
+            isinstance(a.targets[0], ast.Name) and
+            ast.unparse(a.value.func).endswith('inet_pton') and
+            a.value.args and ast.unparse(a.value.args[0]) == fam
+            for a in defs)
 
     def raises(builder, n: Node, res):
         if res is None or res.targets:
             return set()
         nm = e.call_name(n)
-        if nm == 'inet_ntop' and _fixed_by_struct(n):
+        if nm == 'inet_ntop' and (_fixed_by_struct(n) or _from_pton(n)):
             return set()
         return set(DECODER_RAISES.get(nm, []))
     for cq, meth in entries:
@@ -420,9 +481,28 @@ def v2(e: Engine, rep: Report):
 def v3(e: Engine, rep: Report):
     for cq in (V1, V2, AUTO):
         ctx = e.method_ctx(cq, 'handle')
-        g = e.build(ctx, raises=lambda b, n, r: {'builtins.AssertionError',
-                                                 LOCAL}
-                    if n.kind == 'call' and 'pp' in e.call_name(n) else set())
+
+        def is_parser(nm):
+            return 'pp' in (nm or '')
+
+        def pol(builder, call, target, frame):
+            # helpers of the module the error mapping was moved into; the
+            # parsers themselves are the raising events
+            return target.func.module.name == MOD and \
+                not is_parser(target.func.name) and \
+                target.func.name != 'handle'
+
+        def raises(b, n, r):
+            if n.kind != 'call':
+                return set()
+            nm = e.call_name(n)
+            callee_is_param = isinstance(n.ast.func, ast.Name) and \
+                n.ast.func.id in n.frame.ctx.func.params
+            if is_parser(nm) or (callee_is_param and (
+                    r is None or not r.targets)):
+                return {'builtins.AssertionError', LOCAL}
+            return set()
+        g = e.build(ctx, raises=raises, inline=pol, max_depth=4)
         where = ctx.func.qname
         rep.functions.add(where)
         wrapped = [n for n in g.nodes if n.kind == 'call' and
@@ -430,16 +510,29 @@ def v3(e: Engine, rep: Report):
         if not wrapped:
             rep.error('anchor vanished: wrapped handle() call in ' + where)
             continue
+        from . import common
+        nul = common.Nullness(g, e)
+
+        def reaches_wrapped(h):
+            """path from the handler to the wrapped handle() call that the
+            values handed back through helpers do not rule out"""
+            def step(n, label, st):
+                if isinstance(label, tuple):
+                    return None
+                r = nul.step(n, label, st)
+                return None if r == 'infeasible' else r
+            return dataflow.typestate_witness(
+                g, frozenset(), step, lambda x, st: x in wrapped, start=h)
         for h in g.of_kind('handler'):
             ts = h.extra.get('types', [])
             rep.evaluations += 1
             if 'builtins.AssertionError' in ts:
                 # still reaches the wrapped handler, with the invalid address
-                pth = dataflow.find_path(
-                    g, h, lambda x: x in wrapped,
-                    edge_ok=lambda a, l, s: not isinstance(l, tuple))
+                pth = reaches_wrapped(h)
                 sets_invalid = any(
-                    m.kind == 'stmt' and isinstance(m.ast, ast.Assign) and
+                    m.kind == 'stmt' and
+                    isinstance(m.ast, (ast.Assign, ast.Return)) and
+                    m.ast.value is not None and
                     'invalid_pp_source_address' in ast.unparse(m.ast.value)
                     for m in g.nodes if any(
                         sc.kind == 'handler' and sc.ast is h.ast
@@ -452,9 +545,7 @@ def v3(e: Engine, rep: Report):
                           loc=h.loc(), reason='assigns the invalid address '
                           'and falls through to the wrapped handle()')
             elif LOCAL in ts:
-                pth = dataflow.find_path(
-                    g, h, lambda x: x in wrapped,
-                    edge_ok=lambda a, l, s: not isinstance(l, tuple))
+                pth = reaches_wrapped(h)
                 rep.check(pth is None, 'V3', where,
                           'LOCAL command => connection dropped',
                           'after a LOCAL command the wrapped handler is '
@@ -480,25 +571,55 @@ def v3(e: Engine, rep: Report):
                       'the wrapped handler is called with %s' % a,
                       loc=w.loc(), reason='handle(sock, src_addr)')
     # signature constants
+    m = e.p.modules.get(MOD)
+
+    def bytes_const(x, f):
+        """the bytes literal x denotes: a literal, a module-level name or a
+        class-level attribute (cls.X / self.X)"""
+        if isinstance(x, ast.Constant):
+            return x.value if isinstance(x.value, bytes) else None
+        v = None
+        if isinstance(x, ast.Name) and m is not None:
+            v = m.globals.get(x.id)
+        elif isinstance(x, ast.Attribute) and isinstance(x.value, ast.Name) \
+                and f.cls is not None:
+            _, v = e.p.lookup_class_attr(f.cls.qname, x.attr)
+        if isinstance(v, ast.Constant) and isinstance(v.value, bytes):
+            return v.value
+        return None
     sig12 = None
     pctx = e.method_ctx(V2, '__parse_pp_data')
     for n in walk_own(pctx.func.node):
-        if isinstance(n, ast.Compare) and isinstance(
-                n.comparators[0], ast.Constant) and isinstance(
-                n.comparators[0].value, bytes) and len(
-                n.comparators[0].value) == 12:
-            sig12 = n.comparators[0].value
+        if isinstance(n, ast.Compare) and len(n.ops) == 1 and \
+                isinstance(n.ops[0], ast.Eq):
+            for side in (n.left, n.comparators[0]):
+                v = bytes_const(side, pctx.func)
+                if v is not None and len(v) == 12:
+                    sig12 = v
     hctx = e.method_ctx(AUTO, 'handle')
     pre8, v1pre = None, None
-    for n in walk_own(hctx.func.node):
-        if isinstance(n, ast.Compare) and isinstance(
-                n.comparators[0], ast.Constant) and isinstance(
-                n.comparators[0].value, bytes):
-            pre8 = n.comparators[0].value
-        if isinstance(n, ast.Call) and isinstance(n.func, ast.Attribute) \
-                and n.func.attr == 'startswith' and n.args and \
-                isinstance(n.args[0], ast.Constant):
-            v1pre = n.args[0].value
+    # handle() and the helpers of the class the detection may live in
+    ac = e.p.classes.get(AUTO)
+    for hf in ([hctx.func] + [f2 for f2 in (ac.methods.values() if ac else [])
+                              if f2 is not hctx.func]):
+        for n in walk_own(hf.node):
+            if isinstance(n, ast.Compare) and len(n.ops) == 1 and \
+                    isinstance(n.ops[0], ast.Eq):
+                for side in (n.left, n.comparators[0]):
+                    v = bytes_const(side, hf)
+                    if v is not None and pre8 is None:
+                        pre8 = v
+            if isinstance(n, ast.Call) and \
+                    isinstance(n.func, ast.Attribute) and \
+                    n.func.attr == 'startswith' and n.args:
+                v = bytes_const(n.args[0], hf)
+                if v is not None and v1pre is None:
+                    v1pre = v
+    if sig12 is None or pre8 is None or v1pre is None:
+        rep.error('cannot read the version detection constants (v2 '
+                  'signature %r, v2 prefix %r, v1 prefix %r)'
+                  % (sig12, pre8, v1pre))
+        return
     rep.evaluations += 1
     rep.check(sig12 is not None and pre8 is not None and
               len(pre8) == 8 and sig12.startswith(pre8) and
